@@ -56,6 +56,7 @@ def plan(tier, seed):
     for k in range(NSHARDS):
         shards.append(('docs', ndocs // NSHARDS, seed * 1000 + k))
     shards.append(('verbbodies',))
+    shards += [('items', k) for k in range(NSHARDS)]
     if tier != 'quick':
         shards += [('fuzz', FUZZ_RUNS, seed * 100 + k + 1) for k in range(NSHARDS)]
     return {'shards': shards,
@@ -67,7 +68,7 @@ def plan(tier, seed):
             # as specials, e.g. the paragraph break, is the library's business)
             'required_classes': ['strict-ok', 'tolerant-returned', 'kind:macro', 'kind:group',
                                  'kind:math', 'kind:environment', 'kind:comment',
-                                 'doc:strict-ok', 'verbatim-bodies']}
+                                 'doc:strict-ok', 'verbatim-bodies', 'constructed-items']}
 
 
 ALPHAS = {'SIG': SIG, 'EVERY': ALPHA_EVERY, 'SMALL': SIG_SMALL, 'EXTRA': EXTRA_TOKENS,
@@ -146,6 +147,35 @@ VERB_BODIES = ['', 'a', '\na', '\n\na', '\n\n\na\n', ' \n a', 'a\n\n', '\n', '\n
                '\n{a}%b\n\\c $d$\n']
 
 
+def blank_variants(item):
+    """the item itself and the item with one blank inserted before an argument opener / marker"""
+    out = [item]
+    for i, ch in enumerate(item):
+        if i > 0 and ch in '*[{(<+!' and item[i - 1] not in '\\ ' and not item.startswith('\\begin{', max(0, i - 6)):
+            out.append(item[:i] + ' ' + item[i:])
+            out.append(item[:i] + '\n' + item[i:])
+    return out
+
+
+def run_items(k, res):
+    """complete constructs of each context (the catalogue C06 also uses), alone and in pairs, with
+    a blank or a newline before each argument in turn"""
+    from .c06 import PREFIX_ITEMS
+    i = 0
+    for ctxname in sorted(PREFIX_ITEMS):
+        items = PREFIX_ITEMS[ctxname]
+        for a in items:
+            for va in blank_variants(a):
+                for b in [''] + items[::3]:
+                    i += 1
+                    if i % NSHARDS != k:
+                        continue
+                    s = va + b
+                    check_source(s, ctxname, res, {'kind': 'doc', 'ctx': ctxname, 'src': s},
+                                 prefix='doc:')
+    res.label('constructed-items')
+
+
 def run_shard(shard, res):
     if shard[0] == 'verbbodies':
         for ctxname, env, args in VERB_ENVS:
@@ -159,6 +189,9 @@ def run_shard(shard, res):
     if shard[0] == 'fuzz':
         from .. import fuzz
         fuzz.campaign(ID, shard[1], shard[2], res)
+        return
+    if shard[0] == 'items':
+        run_items(shard[1], res)
         return
     if shard[0] == 'soup':
         _, ctxname, alpha, L, k = shard
